@@ -95,3 +95,27 @@ CHECKS["C15"] = {
  "text": "Histories mix ordinary edits with edits (single, grouped, dated what-ifs) built to make recomputation fail at each raising site (capacity, fixed server / storage count, negative storage ledger, failure in the middle of a per-pattern dict update), repeated up to 3 times in a row. After each raise, and after re-assigning the previous value, the observation (values, links, id-level graph) must equal the pre-failure one; the following edits, biased towards the inputs involved, are compared with a fresh build after every edit.",
  "note": TB + "the raising sites are enumerated (every update function that can raise has a generator of real triggers), systems and positions are sampled; known finding F3 shared with C01",
 }
+CHECKS["C10"] = {
+ "level": "exploration",
+ "technique": "runtime monitoring: metamorphic differential - the same model with one input re-expressed in another unit, by rebuild and by live re-assignment",
+ "text": "Every quantity-valued constructor parameter of every object of a model containing all classes (found by signature introspection, so a new parameter is picked up automatically) is re-expressed in up to 3 other units of the same dimension; the rebuilt model and the live model after re-assignment must have physically equal calculated slots; an edit to the same number in another unit (and to another number in another unit) must equal a rebuild with that input. Parameters are marked influential when a x1.37 perturbation changes the model.",
+ "note": TB + "in this unit registry bytes are dimensionless, so data volumes are also re-expressed as bit / percent / dimensionless; comparisons at a floating-point ceil boundary are skipped and counted",
+}
+CHECKS["C12"] = {
+ "level": "exploration",
+ "technique": "runtime monitoring: metamorphic differential with a factor table derived from the harness' own record of the links (scale / inverse scale / affine / unchanged)",
+ "text": "On generated sharing-heavy systems each cost driver of each object is multiplied by k in {0.5, 2, 3.7} (all traffic in one grouped update); from its own link record the monitor derives for every energy / fabrication footprint slot whether it must be multiplied by k or 1/k hour by hour (sole contributor), be affine in the factor (one of several contributors, checked with two factors) or stay unchanged, on a rebuilt system and after the live edit.",
+ "note": TB + "drivers and the slots they drive are those named in the property statement; total_footprint (rounded) is covered through its components (C02)",
+}
+CHECKS["C13"] = {
+ "level": "exploration",
+ "technique": "runtime monitoring: round-trip differential through json.dumps/loads (objects, links, inputs, results, re-export, edits on the loaded system, synthesised v9 file)",
+ "text": "Generated systems (plain and with all builder classes, shared and repeated objects, several zones, non-integer hourly inputs), half of them after edit histories, are saved in both modes and loaded back; object set, ids, classes, links (order and multiplicity), labels, sources and input values are compared, recomputed results must equal the original's, re-export must equal the export, edits on the loaded system are checked against a rebuild from the spec, and the file rewritten as a version-9 file (Device -> Hardware) must load to the same model.",
+ "note": TB + "hourly inputs are compared up to the documented 3-decimal rounding (results up to the effect of that rounding); ids of objects that an edit history disconnected from the system are not in the file and are left out of the edge-list comparison",
+}
+CHECKS["C19"] = {
+ "level": "exploration",
+ "technique": "runtime monitoring: differential across builds and across interpreter processes started with different PYTHONHASHSEED",
+ "text": "Each generated spec is built under several creation orders, permutations of order-irrelevant lists (system patterns, pattern devices, jobs of a step) and identifier seeds in each of 4 (quick) / 8 (thorough) interpreter processes with different hash seeds, half of them followed by the same edit history; all observations of one spec must be numerically equal.",
+ "note": TB + "specs whose ceil arguments sit on a floating-point boundary are pre-filtered and counted",
+}
